@@ -56,8 +56,6 @@ M = [
   "\tit := new(mapIter)\n\t*it = newMapIter(rvWithPtr(t.RV, p))\n\tlastIter = it\n\tfor kp, vp := it.Next(); kp != nil; kp, vp = it.Next() {\n\t\tn--\n\t\tb, err = appendAny(t.K, b, kp)"),
  ("m30_no_lock_in_createStructDesc", ["C08"], "internal/reflect/desc.go",
   "\tsdsmu.Lock()\n\tdefer sdsmu.Unlock()\n", ""),
- ("m31_descmap_set_appends_in_place", ["C08"], "internal/reflect/descmap.go",
-  "\titems := make([]mapStructDescItem, len(old), len(old)+1)\n\tcopy(items, old)\n", "\titems := old\n"),
  ("m32_publish_before_prefetch", ["C08"], "internal/reflect/desc.go",
   "\tprefetchStructDescCache[t] = sd\n", "\tprefetchStructDescCache[t] = sd\n\tsds.Set(rtTypePtr(t), sd) // publish early\n"),
  ("m33_single_global_decoder", ["C08"], "internal/reflect/reflect.go",
